@@ -130,6 +130,11 @@ class Geometry(ABC):
     def copy(self):
         pass
 
+    def __copy__(self, *args):
+        # the default shallow copy shares data arrays, caches
+        # and metadata between the copy and the original
+        return self.copy()
+
     @abc.abstractmethod
     def show(self):
         pass
